@@ -126,6 +126,37 @@ def scenarios(w: K.World, tier: str, R):
                            isb=False, known=None, note='excl=L')
                 yield dict(api=api, pats=[f'a{i}' for i in range(L)], excl=[f'x{i}' for i in range(L)], flags=BR, limit=L,
                            isb=False, known=None, note='L+L')
+            # --- the same boundary on the EXCLUSION list (every list the limit is passed on to, and their sum)
+            if api.name != 'wcmatch.WcMatch':
+                for E in (L - 1, L, L + 1):
+                    if E < 1:
+                        continue
+                    yield dict(api=api, pats=['a'], excl=[mk(E, R.choice(['range', 'set']), 'e')], flags=BR, limit=L, isb=False,
+                               known=None, note=f'excl-side E={E}')
+                    if L <= 33:
+                        yield dict(api=api, pats=['a'], excl=[f'x{i}' for i in range(E)], flags=BR, limit=L, isb=False,
+                                   known=None, note=f'excl-side-list E={E}')
+                # the budget is used up exactly, then another brace pattern follows (current_limit must stay >= 1)
+                bigk = {big: L * 1000}
+                yield dict(api=api, pats=[mk(L, 'range', 'i'), '{a,b}'], excl=None, flags=BR, limit=L, isb=False, known=None,
+                           note='exact-then-brace')
+                yield dict(api=api, pats=[mk(L, 'range', 'i'), big], excl=None, flags=BR, limit=L, isb=False, known=bigk,
+                           counts=dict(total=L + L * 1000, distinct=L + L * 1000, excl_total=0, excl_distinct=0),
+                           note='exact-then-big')
+                yield dict(api=api, pats=[mk(L, 'set', 'i')], excl=['{a,b}'], flags=BR, limit=L, isb=False, known=None,
+                           note='exact-then-brace-excl')
+                if L >= 2:
+                    yield dict(api=api, pats=[mk(L - 1, 'range', 'i'), 'x', '{a,b}'], excl=None, flags=BR, limit=L, isb=False,
+                               known=None, note='exact-then-brace-3')
+        # limits on the far side of the default (a call must use ITS limit everywhere, not the default)
+        if api.name != 'wcmatch.WcMatch':
+            yield dict(api=api, pats=['a'], excl=[mk(1500, 'range', 'e')], flags=BR, limit=2000, isb=False, known=None,
+                       note='limit2000 excl=1500')
+            yield dict(api=api, pats=['a'], excl=[mk(1500, 'range', 'e')], flags=BR, limit=0, isb=False, known=None,
+                       note='limit0 excl=1500')
+            yield dict(api=api, pats=['a'], excl=[mk(1200, 'range', 'e')], flags=BR, limit=None, isb=False, known=None,
+                       note='default excl=1200')
+        yield dict(api=api, pats=[mk(1500, 'range', 'i')], excl=None, flags=BR, limit=2000, isb=False, known=None, note='limit2000')
         # limit = 0 disables
         yield dict(api=api, pats=[mk(1500, 'range', 'z')], excl=None, flags=BR, limit=0, isb=False, known=None, note='limit0')
         if api.name != 'wcmatch.WcMatch':
@@ -147,7 +178,10 @@ def verdict(w: K.World, sc: dict, real: dict):
         lflags = w.G._flag_transform(iflags | W.REALPATH)
     huge = sc['note'] in ('L*1000', 'huge', 'huge+excl')
     facts = {}
-    if huge:
+    if sc.get('counts'):
+        total, distinct = sc['counts']['total'], sc['counts']['distinct']
+        tot_e, dis_e = sc['counts']['excl_total'], sc['counts']['excl_distinct']
+    elif huge:
         n = {'L*1000': L * 1000, 'huge': HUGE, 'huge+excl': HUGE + 2}[sc['note']]
         total = distinct = n
         tot_e = dis_e = 1 if sc['note'] == 'huge+excl' else 0
@@ -171,12 +205,27 @@ def verdict(w: K.World, sc: dict, real: dict):
         return False, f'total expansion count {total} <= limit {L}, but PatternLimitException was raised', facts
     if sc['flags'] & w.F.BRACE and real['pulls'] > L + 1 + (tot_e - dis_e):
         return False, f"{real['pulls']} items pulled from bracex, more than L+1 = {L + 1}", facts
+    # bounded work: bracex treats limit=0 (or negative) as "no limit", so under a positive limit every
+    # bracex.iexpand call must get a budget in 1..L (Properties/C11.C11_brace_budget)
+    if sc['flags'] & w.F.BRACE:
+        for k, (text, arg) in enumerate(real.get('bcalls') or []):
+            if not (1 <= arg <= L):
+                facts['bracex_call'] = {'index': k, 'string': text[:60], 'limit_argument': arg}
+                return False, (f'bracex.iexpand call #{k} ({text[:40]!r}) was given limit={arg} under a pattern limit of {L}: '
+                               'the expansion is unbounded / not bounded by the limit'), facts
     return True, '', facts
 
 
 def attribute(sc: dict, facts: dict, agree: bool) -> str | None:
     """known finding by call site + trigger (only if the code does what the model-at-code does)"""
-    if not agree or sc['excl'] is None:
+    if not agree:
+        return None
+    return trigger(sc, facts)
+
+
+def trigger(sc: dict, facts: dict) -> str | None:
+    """does the call lie in the trigger region of a listed finding (call site + quirk condition)?"""
+    if sc['excl'] is None:
         return None
     api = sc['api']
     L = facts['L']
@@ -201,7 +250,9 @@ def run(ck: Check) -> int:
                    'pathlib match/globmatch/glob/rglob, WcMatch) x L in {1,2,3,5,32,33,1000,1001} x 1-3 inclusion and 0-2 exclusion '
                    'patterns (exclude= or inline !) from nested brace sets/ranges/products and | splits with total counts L-1, L, '
                    'L+1, L*1000, 10^8, duplicates, limit=0, default limit; compared with the Lean loops: outcome kind, items pulled '
-                   'from bracex.iexpand (wrapped), regex texts / number of glob patterns')
+                   'from bracex.iexpand (wrapped), the (string, limit) ARGUMENTS of every bracex.iexpand call vs the model\'s '
+                   'current_limit trace, regex texts / number of glob patterns; the same boundary grid on the exclusion list, '
+                   'limits on both sides of the default, and "budget used up exactly, then another brace pattern"')
         seen = set()
         for sc in scenarios(w, ck.tier, R):
             api = sc['api']
@@ -210,7 +261,8 @@ def run(ck: Check) -> int:
                     real = w.call(api, sc['pats'], sc['excl'], sc['flags'], sc['limit'], sc['isb'])
             except common.CallTimeout:
                 real = {'kind': 'timeout(60s)', 'pulls': w.pulls.n, 'pos': None, 'neg': None, 'bits': None}
-            mod, line = w.model(drv, api, sc['pats'], sc['excl'], sc['flags'], sc['limit'], sc['isb'], (), sc['known'])
+            mod, line = w.model(drv, api, sc['pats'], sc['excl'], sc['flags'], sc['limit'], sc['isb'], (), sc['known'],
+                                want_args=True)
             sr.evaluations += 1
             seen.add((api.name, tuple(sc['pats']), tuple(sc['excl'] or ()), sc['excl'] is None, sc['flags'], sc['limit'], sc['isb']))
             d = K.compare(api, real, mod, bool(sc['flags'] & w.F.BRACE))
@@ -249,12 +301,18 @@ def run(ck: Check) -> int:
 
     def s_prop(sr):
         sr.note = ('the property on every K4 call: more than L distinct patterns after expansion => PatternLimitException; total '
-                   'count <= L => none; items pulled from bracex <= L+1 (+ duplicates inside exclude=); limit=0 => none; default = 1000')
+                   'count <= L => none; items pulled from bracex <= L+1 (+ duplicates inside exclude=); every bracex.iexpand call gets a '
+                   'budget in 1..L (never 0 = unlimited); limit=0 => none; default = 1000')
+        judged = []
         for sc, real, agree in records:
             sr.evaluations += 1
             ok, what, facts = verdict(w, sc, real)
             tag = 'holds' if ok else 'FAILS'
             sr.histogram[tag] = sr.histogram.get(tag, 0) + 1
+            judged.append((ok, what, facts, sc, real, agree))
+        # report failing inputs outside every known trigger region first (the most telling ones)
+        judged.sort(key=lambda j: (j[0], trigger(j[3], j[2]) is not None))
+        for ok, what, facts, sc, real, agree in judged:
             if not ok:
                 kid = attribute(sc, facts, agree)
                 ck.report(Failing(f"{sc['api'].name}: {what}",
